@@ -12,7 +12,10 @@ A *scenario* (the case JSON, self-contained) is
                                       hex = these raw bytes are stored under the id (corrupt);
                                       "cache": null = no cache_odb is passed
    "src_cls"/"dst_cls": "local"|"base",  "req": [token...], "shallow", "verify", "dix", "six",
-   "rounds": [{"fails": [token...], "crash": n|null, "reset": bool, "delete": [token...]}]}
+   "rounds": [{"fails": [token...], "partial": [token...], "crash": n|null, "reset": bool,
+               "delete": [token...], "req": [token...]}]}
+   ("partial" (subset of "fails"): the failing upload first leaves a strict prefix of the bytes under
+   the final name - a non-atomic remote; "req": this round's request, default = the scenario's)
 
 Rounds run one after the other on the same destination and the same persisted index(es);
 "reset" restores the destination to "dst" and empties the destination index first; "delete"
@@ -53,7 +56,8 @@ class Recorder:
         self.calls = 0
         self.eperm = False  # injected failures are PermissionError (transfer._add._error looks at it)
         self.aborted = False
-        self.events = []  # ("put", oid, ok) | ("drop", oid)
+        self.partial = set()  # failing uploads that leave a truncated object under the final name
+        self.events = []  # ("put", oid, ok) | ("partial", oid) | ("drop", oid)
         self.snaps = []  # {oid: bytes} after every upload attempt
         self.depth = 0
 
@@ -61,8 +65,8 @@ class Recorder:
         parts = str(path).replace(os.sep, "/").split("/")
         return "".join(parts[-2:])
 
-    def attempt(self, oid, ok):
-        self.events.append(("put", oid, ok))
+    def attempt(self, oid, ok, partial=False):
+        self.events.append(("partial", oid) if partial else ("put", oid, ok))
         self.snaps.append(store_bytes(self.dest))
 
 
@@ -84,14 +88,26 @@ def faultfs_class():
                 raise Abort
             oid = rec.oid_of(rpath)
             rec.calls += 1
+            partial = False
             try:
                 if oid in rec.fails:
+                    if oid in rec.partial:
+                        try:
+                            with open(lpath, "rb") as f:
+                                data = f.read()
+                        except OSError:
+                            data = b""
+                        if data:
+                            os.makedirs(os.path.dirname(rpath), exist_ok=True)
+                            with open(rpath, "wb") as f:
+                                f.write(data[:-1])
+                            partial = True
                     if rec.eperm:
                         raise PermissionError(13, "injected upload failure")
                     raise OSError(5, "injected upload failure")
                 super().put_file(lpath, rpath, callback=callback, **kwargs)
             except Exception:
-                rec.attempt(oid, False)
+                rec.attempt(oid, False, partial)
                 if rec.crash is not None and rec.calls >= rec.crash:
                     rec.aborted = True
                     raise Abort from None
@@ -281,13 +297,15 @@ class Scenario:
         ob["six_before"] = index_items(self.six)
         rec = Recorder(self.p_dst, [self.oid[t] for t in rs.get("fails") or []], rs.get("crash"))
         rec.eperm = bool(self.case.get("eperm"))
+        rec.partial = {self.oid[t] for t in rs.get("partial") or []}
+        ob["req"] = list(rs.get("req") or case["req"])
         fs = faultfs_class()()
         fs.rec = rec
         dcls = LocalHashFileDB if case["dst_cls"] == "local" else HashFileDB
         dest = dcls(fs, self.p_dst)
         src = impl.make_odb(case["src_cls"], self.p_src)
         cache = impl.make_odb(case.get("cache_cls", "local"), self.p_cache) if self.has_cache else None
-        obj_ids = {HashInfo("md5", self.oid[t]) for t in case["req"]}
+        obj_ids = {HashInfo("md5", self.oid[t]) for t in ob["req"]}
         ob["req_order"] = [h.value for h in obj_ids]
         seen = []
         dirorder = []
@@ -319,7 +337,7 @@ class Scenario:
         ob["events"] = rec.events
         ob["snaps"] = rec.snaps
         ob["dirorder"] = dirorder
-        ob["putorder"] = [e[1] for e in rec.events if e[0] == "put"]
+        ob["putorder"] = [e[1] for e in rec.events if e[0] in ("put", "partial")]
         ob["dst_after"] = store_bytes(self.p_dst)
         ob["dix_after"] = index_items(self.dix)
         ob["six_after"] = index_items(self.six)
@@ -390,14 +408,18 @@ class Scenario:
             rs = ob["spec"]
             rterms.append(
                 "{| r_dst := %s; r_req := %s; r_shallow := %s; r_verify := %s; r_dix := %s; r_six := %s; "
-                "r_fails := %s; r_dirorder := %s; r_putorder := %s; r_crash := %s |}"
+                "r_fails := %s; r_partial := %s; r_dirorder := %s; r_putorder := %s; r_crash := %s |}"
                 % (cstore(ob["dst_before"]), coids(ob["req_order"]), cbool(self.case["shallow"]),
                    cbool(self.case["verify"]), cix(ob["dix_before"]), cix(ob["six_before"]),
-                   coids(self.oid[t] for t in rs.get("fails") or []), coids(ob["dirorder"]),
+                   coids(self.oid[t] for t in rs.get("fails") or []),
+                   clist([cpair(cbytes(T(self.oid[t])), "[%d]" % ck(self.src0[self.oid[t]][:-1]))
+                          for t in rs.get("partial") or [] if self.src0.get(self.oid[t])]),
+                   coids(ob["dirorder"]),
                    coids(ob["putorder"]), "None" if ob["crash"] is None else "(Some %d)" % ob["crash"]))
             st = ob["status"]
             v_status = vL([]) if st is None else vL([vL([voids(s) for s in st])])
             v_events = vL([vL([vN(0), vN(I(e[1])), vN(1 if e[2] else 0)]) if e[0] == "put"
+                           else vL([vN(4), vN(I(e[1]))]) if e[0] == "partial"
                            else vL([vN(1), vN(I(e[1]))]) for e in ob["events"]])
             v_snaps = vL([voids(s.keys()) for s in ob["snaps"]])
             oc = ob["outcome"]
@@ -460,9 +482,9 @@ def c04_preconditions(S, ob):
                 return "corrupt directory object in play"
     if open_dirs(ob["dst_before"]):
         return "destination not closed at the start"
-    req = {S.oid[t] for t in S.case["req"]}
+    req = {S.oid[t] for t in ob["req"]}
     if S.case["shallow"]:
-        for t in S.case["req"]:
+        for t in ob["req"]:
             if is_dir(t):
                 lst = parse_listing(S.gen[t])
                 if any(f not in req for f in lst):
@@ -496,8 +518,8 @@ def judge_c04(S):
         if oc[0] == "ok" and ob["status"] is not None:
             new = ob["status"][2]
             failed = oc[2]
-            undelivered = {e[1] for e in ob["events"] if (e[0] == "put" and not e[2]) or e[0] == "drop"}
-            for t in S.case["req"]:
+            undelivered = {e[1] for e in ob["events"] if (e[0] == "put" and not e[2]) or e[0] in ("drop", "partial")}
+            for t in ob["req"]:
                 D = S.oid[t]
                 if not is_dir(t) or D not in new:
                     continue
@@ -511,7 +533,7 @@ def judge_c04(S):
                                      f"round {ri}: {t} withheld because a listed file failed, but it is not reported failed"))
         # fault-free retry of the same request on the resulting destination
         rs = ob["spec"]
-        if (prev is not None and not rs.get("reset") and not rs.get("fails") and rs.get("crash") is None
+        if (prev is not None and prev["req"] == ob["req"] and not rs.get("reset") and not rs.get("fails") and rs.get("crash") is None
                 and oc[0] == "ok"):
             verify = bool(S.case["verify"])
 
@@ -519,7 +541,7 @@ def judge_c04(S):
                 return o in S.src0 and not (verify and not genuine(o, S.src0[o]))
 
             wanted = set()
-            for t in S.case["req"]:
+            for t in ob["req"]:
                 wanted.add(S.oid[t])
                 if is_dir(t) and not S.case["shallow"]:
                     wanted.update(parse_listing(S.gen[t]))
@@ -558,7 +580,7 @@ def judge_c11(S):
         hashes = set()
         same_view = True
         expand_ok = True
-        for t in S.case["req"]:
+        for t in ob["req"]:
             o = S.oid[t]
             hashes.add(o)
             if is_dir(o) and not S.case["shallow"]:
@@ -597,14 +619,34 @@ def judge_c11(S):
             elif after[o] != S.src0.get(o):
                 problems.append(("C11:transferred-wrong-bytes",
                                  f"round {ri}: {name(o)} reported transferred; destination bytes differ from the source's"))
-        closed_before = not open_dirs(before) and not ob["external"]
+        # an upload that left a truncated object behind did not deliver: it must be reported failed
+        for o in sorted({e[1] for e in ob["events"] if e[0] == "partial"}):
+            if o not in failed:
+                problems.append(("C11:partial-not-failed",
+                                 f"round {ri}: the upload of {name(o)} failed after writing a truncated object, "
+                                 f"but it is not reported failed"
+                                 + (" (reported transferred)" if o in transferred else "")))
+        # absent afterwards => failed or missing.  Hypothesis when a destination index answers:
+        # closed destination, coherent directory copies, and an index that is either truthful or
+        # stale in the way the real validation detects (a directory is requested and an indexed
+        # directory object is gone: the index is cleared)
+        closed_before = not open_dirs(before)
         st_view = S.cache0 if S.cache0 is not None else S.src0
         views_agree = all(st_view[o] == b for o, b in before.items() if is_dir(o) and o in st_view)
-        if ob["dix_before"] is not None and not (closed_before and views_agree):
-            S.excluded["absent-unreported:index-hypothesis"] = S.excluded.get("absent-unreported:index-hypothesis", 0) + 1
+        dixb = ob["dix_before"]
+        if dixb is None:
+            hyp = True
+        else:
+            truthful = all(k in before for k in dixb)
+            detected = any(is_dir(S.oid[t]) for t in ob["req"]) and any(v and k not in before for k, v in dixb.items())
+            hyp = closed_before and views_agree and (truthful or detected)
+            if hyp and not truthful:
+                S.excluded["judged:stale-index-detected"] = S.excluded.get("judged:stale-index-detected", 0) + 1
         if not same_view:
             S.excluded["absent-unreported:cache-source-disagree"] = S.excluded.get("absent-unreported:cache-source-disagree", 0) + 1
-        elif ob["dix_before"] is None or (closed_before and views_agree):
+        elif not hyp:
+            S.excluded["absent-unreported:index-hypothesis"] = S.excluded.get("absent-unreported:index-hypothesis", 0) + 1
+        else:
             for o in sorted(hashes):
                 if o not in after and o not in failed and o not in s_missing and o not in transferred:
                     problems.append(("C11:absent-unreported",
@@ -632,6 +674,11 @@ def features(S):
             f.add("failure")
         if any(e[0] == "drop" for e in ob["events"]):
             f.add("drop")
+        if any(e[0] == "partial" for e in ob["events"]):
+            f.add("partial")
+            f.add("failure")
+        if ob["spec"].get("req"):
+            f.add("per-round-request")
         if ob["crash"] is not None:
             f.add("crash")
         if ob["status"] is not None and ob["status"][1]:
@@ -823,6 +870,94 @@ def gen_base(rng, prop):
     return case, notes + ["dest:" + dkind, "req:" + rkind]
 
 
+def closed_req(case, d):
+    """directory token d together with the files it lists"""
+    out = [d]
+    for _, f in case["dirs"][d]:
+        if f not in out:
+            out.append(f)
+    return out
+
+
+def gen_history(rng):
+    """C11: a multi-round history on ONE persistent destination index with per-round requests and
+    deletions behind the index's back: push directory A; A's directory object (and some of its
+    files) vanish from the destination; then a different request (another directory B and a file x
+    of A) is answered with the same index.  Returns (case, notes)."""
+    salt = "%08x" % rng.getrandbits(32)
+    nf = rng.randint(4, 6)
+    files = {f"f{i}": f"{salt}-hist-{i}".encode().hex() for i in range(nf)}
+    ftoks = list(files)
+    ka = rng.randint(1, 3)
+    a_files = ftoks[:ka]
+    b_files = ftoks[ka:ka + rng.randint(1, 2)]
+    dirs = {"d0.dir": [[f"a{n}", f] for n, f in enumerate(a_files)],
+            "d1.dir": [[f"sub/b{n}", f] for n, f in enumerate(b_files)]}
+    notes = ["history"]
+    if rng.random() < 0.3:
+        # a third directory sharing a file with A
+        dirs["d2.dir"] = [["c0", a_files[-1]], ["c1", ftoks[-1]]]
+        notes.append("history:shared-dir")
+    case = {"prop": "C11", "files": files, "dirs": dirs, "src": {t: None for t in ftoks + list(dirs)},
+            "cache": None, "dst": {f: None for f in ftoks[ka + 2:] if rng.random() < 0.3},
+            "req": ["d0.dir"], "shallow": rng.random() < 0.5, "verify": rng.random() < 0.3,
+            "src_cls": rng.choice(["local", "base"]), "dst_cls": rng.choice(["local", "base"]),
+            "dix": True, "six": False, "rounds": []}
+    sh = case["shallow"]
+
+    def want(d):
+        return closed_req(case, d) if sh else [d]
+
+    x = a_files[0]
+    r1 = {"fails": [], "crash": None, "reset": True, "req": want("d0.dir")}
+    if rng.random() < 0.15:
+        r1["fails"] = [rng.choice(closed_req(case, "d0.dir"))]
+        notes.append("history:first-round-faulty")
+    rounds = [r1]
+    r = rng.random()
+    if r < 0.35:
+        dele = ["d0.dir", x]
+    elif r < 0.55:
+        dele = ["d0.dir"]
+    elif r < 0.8:
+        dele = ["d0.dir"] + list(a_files)
+    elif r < 0.9:
+        dele = [x]  # a file only: staleness the validation cannot see
+    else:
+        dele = ["d0.dir", x] + (["d1.dir"] if rng.random() < 0.5 else [])
+    r = rng.random()
+    if r < 0.45:
+        req2 = want("d1.dir") + [x]
+        notes.append("history:round2=B+x")
+    elif r < 0.6:
+        req2 = closed_req(case, "d1.dir") + [x] if sh else ["d1.dir", x] + [f for f in a_files[1:]]
+        notes.append("history:round2=B+files")
+    elif r < 0.75:
+        req2 = [x] + [f for f in a_files[1:] if rng.random() < 0.5]
+        notes.append("history:round2=files-only")
+    elif r < 0.9:
+        req2 = want("d0.dir")
+        notes.append("history:round2=A-again")
+    else:
+        req2 = want("d1.dir") + want("d0.dir")
+        notes.append("history:round2=A+B")
+    req2 = list(dict.fromkeys(req2))
+    rng.shuffle(req2)
+    rounds.append({"fails": [], "crash": None, "reset": False, "delete": dele, "req": req2})
+    for _ in range(rng.choice([0, 0, 1, 2])):
+        rs = {"fails": [], "crash": None, "reset": False,
+              "req": rng.choice([want("d0.dir"), want("d1.dir") + [x], [x], want("d0.dir") + want("d1.dir")])}
+        rs["req"] = list(dict.fromkeys(rs["req"]))
+        if rng.random() < 0.4:
+            rs["delete"] = rng.sample(["d0.dir", "d1.dir"] + ftoks, rng.randint(1, 2))
+        if rng.random() < 0.2:
+            rs["fails"] = [rng.choice(rs["req"])]
+        rounds.append(rs)
+    case["rounds"] = rounds
+    notes.append("history:rounds=%d" % len(rounds))
+    return case, notes
+
+
 def fail_sets(rng, uploads, shared, exhaustive_limit, k_random):
     """non-empty fail sets over the would-be uploads (tokens)"""
     out = []
@@ -884,6 +1019,9 @@ def run_scenario(ctx, case, crash_all=False, crash_some=0):
                 points = sorted(ctx.rng.sample(points, crash_some))
             for n in points:
                 rs = {"fails": list(full["spec"].get("fails") or []), "crash": n, "reset": True}
+                for k in ("partial", "req"):
+                    if full["spec"].get(k):
+                        rs[k] = list(full["spec"][k])
                 case["rounds"].append(rs)
                 S.run_round(rs)
     except BaseException:
@@ -939,4 +1077,34 @@ def builtin_corpus(prop):
                 "dix": True, "six": False,
                 "rounds": [{"fails": [], "crash": None, "reset": True},
                            {"fails": [], "crash": None, "reset": False}]})
+    if prop != "C11":
+        return out
+    # seeded change m1: a stale index must be re-validated even when the indexed directory is not
+    # part of the query.  push A; A's directory object and its file x vanish; push {B, x}
+    fh = {"f0": hx(b"x-contents"), "f1": hx(b"y-contents"), "f2": hx(b"z-contents")}
+    dh = {"d0.dir": [["x", "f0"], ["y", "f1"]], "d1.dir": [["z", "f2"]]}
+    srch = {t: None for t in list(fh) + list(dh)}
+    for cls in ("local", "base"):
+        out.append({"prop": prop, "files": fh, "dirs": dh, "src": srch, "cache": None, "dst": {},
+                    "req": ["d0.dir"], "shallow": False, "verify": False, "src_cls": "base", "dst_cls": cls,
+                    "dix": True, "six": False,
+                    "rounds": [{"fails": [], "crash": None, "reset": True, "req": ["d0.dir"]},
+                               {"fails": [], "crash": None, "reset": False, "delete": ["d0.dir", "f0"],
+                                "req": ["d1.dir", "f0"]},
+                               {"fails": [], "crash": None, "reset": False, "req": ["d0.dir"]}]})
+    out.append({"prop": prop, "files": fh, "dirs": dh, "src": srch, "cache": None, "dst": {},
+                "req": ["d0.dir", "f0", "f1"], "shallow": True, "verify": False, "src_cls": "local", "dst_cls": "base",
+                "dix": True, "six": False,
+                "rounds": [{"fails": [], "crash": None, "reset": True, "req": ["d0.dir", "f0", "f1"]},
+                           {"fails": [], "crash": None, "reset": False, "delete": ["d0.dir", "f0"],
+                            "req": ["d1.dir", "f2", "f0"]}]})
+    # seeded change m2: an upload that fails after writing part of the object is a failure.  The
+    # shared file f1 is partial; both directories that list it are requested
+    for cls in ("local", "base"):
+        for verify in (False, True):
+            out.append({"prop": prop, "files": f, "dirs": d, "src": allsrc, "cache": None, "dst": {},
+                        "req": ["d0.dir", "d1.dir", "f3"], "shallow": False, "verify": verify, "src_cls": "local",
+                        "dst_cls": cls, "dix": False, "six": False,
+                        "rounds": [{"fails": ["f1"], "partial": ["f1"], "crash": None, "reset": True},
+                                   {"fails": [], "crash": None, "reset": False}]})
     return out
